@@ -353,6 +353,9 @@ pub fn eval_mm(a: &BuiltMulti, mm: &MM, segs: &BTreeMap<u64, Vec<u8>>, st: &mut 
         if MDirImage::read(dir) != img {
             st.viol(format!("c11:{cls}:fs-ro:mutated-directory"), json!({"case": case}));
         }
+        if let Ok(Ok(rep)) = &ro {
+            crate::readers::judge_projection(st, dir, rep, ro_rel.as_ref(), &a.writer_epochs, &cls, &case, "mseg.");
+        }
         match mc::catch(|| doctor_filesystem_store(dir)) {
             Err(p) => st.viol(format!("c11:{cls}:doctor:panic"), json!({"case": case, "panic": p})),
             Ok(Err(e)) => st.outcome(&format!("mseg.err:{}@doctor", errkind(&format!("{e:?}")))),
@@ -484,6 +487,35 @@ pub fn run(r: &Report) {
     r.note("mseg.log_words", json!(logs.iter().map(|l| l.0.word()).collect::<Vec<_>>()));
     r.guard("mseg.multi_segment_log_built", logs.iter().any(|l| l.0.segments.iter().filter(|s| !s.is_empty()).count() >= 2));
     r.guard("mseg.three_segment_log_built", logs.iter().any(|l| l.0.segments.iter().filter(|s| !s.is_empty()).count() >= 3));
+
+    // vacuity: the intact multi-segment logs (those whose manifest is current) project Present
+    let mut intact_present = 0usize;
+    let mut intact_other = Vec::new();
+    for (a, _) in &logs {
+        let img = a.full_image();
+        with_dir(|dir| {
+            img.materialise_over(dir);
+            if validate_filesystem_manifest(dir).is_err() {
+                return;
+            }
+            match recover_filesystem_store(dir, RecoveryAccessMode::ReadOnly) {
+                Ok(rep) => {
+                    let pr = warp_core::causal_wal::project_filesystem_wal_recovery(dir, &rep, &a.writer_epochs, None);
+                    if pr.posture == warp_core::causal_wal::WalRecoveryProjectionPosture::Present && pr.root.as_ref().is_some_and(|x| x.segments.len() == a.segments.iter().filter(|s| !s.is_empty()).count()) {
+                        intact_present += 1;
+                    } else {
+                        intact_other.push(format!("{}: {:?} {:?}", a.word(), pr.posture, pr.obstructions));
+                    }
+                }
+                Err(e) => intact_other.push(format!("{}: {e:?}", a.word())),
+            }
+        });
+    }
+    r.counter("mseg.intact_logs_projected_present", intact_present as u64);
+    if !intact_other.is_empty() {
+        r.note("mseg.intact_logs_not_projected_present", json!(intact_other));
+    }
+    r.guard("mseg.intact_log_projects_present", intact_present >= 2 && intact_other.is_empty());
 
     let mut jobs: Vec<(usize, MM)> = Vec::new();
     for (i, (a, b)) in logs.iter().enumerate() {
